@@ -1135,7 +1135,7 @@ void Validator::ValidatorImpl::validateUnits(const UnitsPtr &units, History &his
 
     size_t unitsWithNameCount = 0;
     size_t unitsWithImportSource = 0;
-    for (size_t i = 0; (i < model->unitsCount()) && (modelsVisited.size() == 1); ++i) {
+    for (size_t i = 0; (model != nullptr) && (i < model->unitsCount()) && (modelsVisited.size() == 1); ++i) {
         auto tmpUnits = model->units(i);
         if (tmpUnits->name() == unitsName) {
             unitsWithNameCount += 1;
@@ -1282,9 +1282,10 @@ void Validator::ValidatorImpl::validateUnitsUnitsItem(size_t index, const UnitsP
     units->unitAttributes(index, reference, prefix, exponent, multiplier, id);
     if (isCellmlIdentifier(reference)) {
         ModelPtr model = owningModel(units);
-        if (model->hasUnits(reference) && !isStandardUnitName(reference)) {
+        bool hasLocalUnits = (model != nullptr) && model->hasUnits(reference);
+        if (hasLocalUnits && !isStandardUnitName(reference)) {
             validateUnits(model->units(reference), history, modelsVisited);
-        } else if (!model->hasUnits(reference) && !isStandardUnitName(reference)) {
+        } else if (!hasLocalUnits && !isStandardUnitName(reference)) {
             auto issue = Issue::IssueImpl::create();
             issue->mPimpl->setDescription("Units reference '" + reference + "' in units '" + units->name() + "' is not a valid reference to a local units or a standard unit type.");
             issue->mPimpl->mItem->mPimpl->setUnitsItem(UnitsItem::create(units, index));
